@@ -95,12 +95,21 @@ theorem approx_pow2_post_spec (bits mant shift : ℕ) :
 theorem spec_pow_oracle (m a e : ℕ) : specPow m a e = (a ^ e % m, min (a ^ e) m) :=
   C13Spec.specPow_spec m a e
 
-/-! ## log -/
+/-! ## log
+
+FULL STATEMENT (the property): for every non-zero value and base ≥ 2, `log`/`log10`/`checked_log`/`checked_log10` return
+`⌊log_base(value)⌋`. The code starts from a libm-derived float estimate (`approx_log2`, f64 `log2`); libm is not modelled
+in Lean, so the estimate `est` is a parameter of the model and the theorems named `…_partial` below carry the hypothesis
+`estOk` on it (`est < 2^bits ∧ (est ≤ ⌊log⌋ + 1 ∨ base^est < 2^bits)`). What is missing for the full statement is exactly
+"the f64 estimate satisfies `estOk`" — a fact about libm and the host FPU. It is shown necessary
+(`log_estimate_hypothesis_needed`), and it is evaluated on the REAL estimate of every correspondence case (hook tap; a
+falsifying case is reported). Everything else (`log2`, `checked_log2`, the `None`/no-panic clauses at every width, and
+totality for every estimate) is proved unconditionally. -/
 
 /-- **`log` is exact** given the hypothesis on the float estimate: for `2 ≤ base`, `0 < x`, if
     `est < 2^bits` and (`est ≤ ⌊log⌋ + 1` or `base^est` does not overflow) the two correction loops
     return `L = ⌊log_base x⌋` — no panic, within the fuel (`est + 1` resp. `bits + 1` iterations). -/
-theorem log_spec (bits x base est L : ℕ) (hb : 2 ≤ base) (hbM : base < 2 ^ bits)
+theorem log_spec_partial (bits x base est L : ℕ) (hb : 2 ≤ base) (hbM : base < 2 ^ bits)
     (hx : 0 < x) (hxM : x < 2 ^ bits) (hL1 : base ^ L ≤ x) (hL2 : x < base ^ (L + 1))
     (hest : estOk bits base est L = true) :
     Log.log bits x base est = .ok L := by
@@ -116,7 +125,7 @@ theorem log_total (bits x base est : ℕ) (hb : 2 ≤ base) (hbM : base < 2 ^ bi
   obtain ⟨r, h1, _⟩ := log_total_exact bits x base est hb hbM hx hxM hest
   exact ⟨r, h1⟩
 
-/-- the estimate hypothesis of `log_spec` cannot be dropped: at `U3`, `x = 3`, `base = 3`, an estimate
+/-- the estimate hypothesis of `log_spec_partial` cannot be dropped: at `U3`, `x = 3`, `base = 3`, an estimate
     of `3` (two too high, `3^3` overflows) makes the loops return `2` although `⌊log₃ 3⌋ = 1`. -/
 theorem log_estimate_hypothesis_needed :
     Log.log 3 3 3 3 = .ok 2 ∧ 3 ^ 1 ≤ 3 ∧ 3 < 3 ^ (1 + 1) ∧ estOk 3 3 3 1 = false := by decide
@@ -142,7 +151,7 @@ theorem checked_log_none_iff (bits x base est : ℕ) (hbM : base < 2 ^ bits) (hx
     omega
 
 /-- `checked_log` returns `Some(⌊log⌋)` under the estimate hypothesis. -/
-theorem checked_log_spec (bits x base est L : ℕ) (hb : 2 ≤ base) (hbM : base < 2 ^ bits)
+theorem checked_log_spec_partial (bits x base est L : ℕ) (hb : 2 ≤ base) (hbM : base < 2 ^ bits)
     (hx : 0 < x) (hxM : x < 2 ^ bits) (hL1 : base ^ L ≤ x) (hL2 : x < base ^ (L + 1))
     (hest : estOk bits base est L = true) :
     checkedLog bits x base est = .ok (some L) := by
@@ -150,7 +159,7 @@ theorem checked_log_spec (bits x base est L : ℕ) (hb : 2 ≤ base) (hbM : base
   have h : ¬ ((bitLen base < 2 || x = 0) = true) := by
     simp only [Bool.or_eq_true, decide_eq_true_eq, bitLen_lt_two_iff]
     omega
-  rw [if_neg h, log_spec bits x base est L hb hbM hx hxM hL1 hL2 hest]
+  rw [if_neg h, log_spec_partial bits x base est L hb hbM hx hxM hL1 hL2 hest]
 
 /-- **`checked_log2` at every width** (including 0 and 1, where `2` does not fit), for every estimate:
     `None` for zero, `Some(⌊log2 x⌋)` otherwise. No float is involved (`base == 2` arm). -/
@@ -217,16 +226,16 @@ theorem checked_log10_none_iff (bits x est : ℕ) (hxM : x < 2 ^ bits) (hest : e
     · exact ⟨none, by simp [h0], by simp [h0]⟩
     · exact ⟨some 0, by simp [h0], by simp [h0]⟩
 
-/-- `checked_log10` returns `Some(⌊log10 x⌋)` for non-zero `x` (estimate hypothesis as in `log_spec`;
+/-- `checked_log10` returns `Some(⌊log10 x⌋)` for non-zero `x` (estimate hypothesis as in `log_spec_partial`;
     it is not used when `10` does not fit, i.e. `bits < 4`). -/
-theorem checked_log10_spec (bits x est L : ℕ) (hxM : x < 2 ^ bits)
+theorem checked_log10_spec_partial (bits x est L : ℕ) (hxM : x < 2 ^ bits)
     (hL1 : 10 ^ L ≤ x) (hL2 : x < 10 ^ (L + 1)) (hest : 10 < 2 ^ bits → estOk bits 10 est L = true) :
     checkedLog10 bits x est = .ok (some L) := by
   have hx : 0 < x := lt_of_lt_of_le (by positivity) hL1
   unfold checkedLog10 checkedLogConst
   by_cases hfit : 10 < 2 ^ bits
   · rw [if_pos hfit]
-    exact checked_log_spec bits x 10 est L (by omega) hfit hx hxM hL1 hL2 (hest hfit)
+    exact checked_log_spec_partial bits x 10 est L (by omega) hfit hx hxM hL1 hL2 (hest hfit)
   · rw [if_neg hfit, if_neg (by omega)]
     have hL : L = 0 := by
       rcases Nat.eq_zero_or_pos L with h | h
@@ -236,14 +245,14 @@ theorem checked_log10_spec (bits x est L : ℕ) (hxM : x < 2 ^ bits)
     rw [hL]
 
 /-- `log10` returns `⌊log10 x⌋` for non-zero `x` at every width. -/
-theorem log10_spec (bits x est L : ℕ) (hxM : x < 2 ^ bits)
+theorem log10_spec_partial (bits x est L : ℕ) (hxM : x < 2 ^ bits)
     (hL1 : 10 ^ L ≤ x) (hL2 : x < 10 ^ (L + 1)) (hest : 10 < 2 ^ bits → estOk bits 10 est L = true) :
     Log.log10 bits x est = .ok L := by
   have hx : 0 < x := lt_of_lt_of_le (by positivity) hL1
   unfold Log.log10 logConst
   by_cases hfit : 10 < 2 ^ bits
   · rw [if_pos hfit]
-    exact log_spec bits x 10 est L (by omega) hfit hx hxM hL1 hL2 (hest hfit)
+    exact log_spec_partial bits x 10 est L (by omega) hfit hx hxM hL1 hL2 (hest hfit)
   · rw [if_neg hfit, if_neg (by omega)]
     have hL : L = 0 := by
       rcases Nat.eq_zero_or_pos L with h | h
@@ -256,14 +265,20 @@ theorem log10_spec (bits x est L : ℕ) (hxM : x < 2 ^ bits)
 theorem spec_ilog_oracle (base x : ℕ) (hb : 2 ≤ base) (hx : 1 ≤ x) :
     base ^ (ilog base x) ≤ x ∧ x < base ^ (ilog base x + 1) := C13Spec.ilog_spec base x hb hx
 
-/-! ## root -/
+/-! ## root
+
+FULL STATEMENT (the property): for every degree ≥ 1, `root` returns `⌊value^(1/degree)⌋` and terminates. The first Newton
+guess is libm-derived (`approx_pow2(approx_log2(x)/k)`); it is the parameter `g` of the model, and `root_spec_partial`
+carries the hypothesis `guessOk` on it (needed only when the Newton loop is reached). Missing for the full statement:
+"the f64-derived first guess satisfies `guessOk`" — a fact about libm; shown necessary (`root_guess_hypothesis_needed`),
+evaluated on the real guess of every correspondence case. Termination with an explicit bound is `root_loop_terminates`. -/
 
 /-- **`root` is exact**: for every degree `k ≥ 1`, `root x k = s` with `s^k ≤ x < (s+1)^k`, at every
     width. When the Newton loop is reached (`x ≠ 0`, `1 < k < bits`) the first guess `g` must satisfy
     `guessOk`: `1 ≤ g` and `(k−1)·max(g, 2s) + x / min(g, s)^(k−1) < 2^bits` — the bound on `result`
     along the run (`[min g s, max g (2s)]`) under which the code's wrapping `+`, `*` and
     `saturating_shl` provably do not wrap. Termination: the model's fuel `2x + g + 4` suffices. -/
-theorem root_spec (bits x k g s : ℕ) (hk : 1 ≤ k) (hxM : x < 2 ^ bits)
+theorem root_spec_partial (bits x k g s : ℕ) (hk : 1 ≤ k) (hxM : x < 2 ^ bits)
     (hlo : s ^ k ≤ x) (hhi : x < (s + 1) ^ k)
     (hg : x ≠ 0 → k < bits → k ≠ 1 → guessOk bits x k g s = true) :
     root bits x k g = .ok s := root_eq bits x k g s hk hxM hlo hhi hg
@@ -288,14 +303,14 @@ theorem spec_iroot_oracle (x k : ℕ) (hk : 1 ≤ k) :
 /-- degree 0 panics (documented). -/
 theorem root_degree_zero (bits x g : ℕ) : root bits x 0 g = .panic := by simp [root]
 
-/-- the guess hypothesis of `root_spec` cannot be dropped: the code's arithmetic wraps. `U8`, `x = 255`,
+/-- the guess hypothesis of `root_spec_partial` cannot be dropped: the code's arithmetic wraps. `U8`, `x = 255`,
     `k = 2`, started from `g = 1`: `division + deg_m1 * result = 255 + 1` wraps to `0`, the next
     `result` is `0` and `self / 0` panics. -/
 theorem root_guess_hypothesis_needed : root 8 255 2 1 = .panic ∧ guessOk 8 255 2 1 15 = false := by
   decide
 
 /-! ## exhaustive cross-checks at tiny widths (kernel evaluation; **not** the theorems — these only
-    re-confirm `root_spec` / `log_spec` on every input of the small widths, for **every** first guess /
+    re-confirm `root_spec_partial` / `log_spec_partial` on every input of the small widths, for **every** first guess /
     estimate, and show that an exact first guess always satisfies `guessOk`) -/
 
 /-- widths `≤ 5`, all `x`, all degrees reaching the loop, **all** guesses `g < 2^bits`: `guessOk → root = oracle`
